@@ -229,6 +229,86 @@ fn vcf_for_odd(columns: &[usize], odd: &[usize]) -> Vec<u8> {
     to_vcf(&cs).0
 }
 
+/// Genotype spellings of the column-permutation grid: called, missing, multiallelic, haploid.
+const ODD_GTS: [&str; 4] = ["0/1", "./.", "1/2", "1"];
+
+/// One record whose three listed samples carry the genotypes `row` (indices into `ODD_GTS`), between
+/// two ordinary records, with the sample columns in every order: reordering the columns of the input
+/// must change neither success / failure nor stdout - also when the record is skipped or faulty.
+fn eval_cli_odd_columns(row: &[usize; 3], labelled: bool, project: bool, scratch: &Scratch) -> Option<Viol> {
+    let list = if labelled { "s0=A,s1=B,s2=A" } else { "s0,s1,s2" };
+    let mut args: Vec<&str> = vec!["create", "--samples", list];
+    if project {
+        args.extend(["--project-shape", if labelled { "3,2" } else { "4" }]);
+    }
+    let mut outcomes: Vec<(Vec<usize>, bool, Vec<u8>, String)> = Vec::new();
+    for perm in crate::enumerate::permutations(3) {
+        let mut cs = CallSet::new(3);
+        cs.samples = perm.iter().map(|s| format!("s{s}")).collect();
+        for rec in 0..3 {
+            let gts: Vec<String> = perm.iter().map(|&s| if rec == 1 { ODD_GTS[row[s]].to_string() } else { [Cls::G0, Cls::G1, Cls::G2][COLS[s][rec]].spell(rec + s).to_string() }).collect();
+            cs.push_gts(&gts);
+            let last = cs.records.len() - 1;
+            cs.records[last].alts = vec!["C", "G"];
+        }
+        let o = run_sfs(&args, Stdin::Bytes(&to_vcf(&cs).0), scratch);
+        outcomes.push((perm, o.ok(), o.stdout.clone(), o.stderr_str().lines().last().unwrap_or("").chars().take(160).collect()));
+    }
+    let first = &outcomes[0];
+    // a haploid genotype in a listed sample must fail the run in every column order
+    let must_fail = row.contains(&3);
+    let bad = outcomes.iter().find(|o| o.1 != first.1 || o.2 != first.2 || (must_fail && o.1));
+    bad.map(|b| {
+        (
+            format!("C09|cli|column-order-matters|{}{}", if must_fail { "non-diploid-listed" } else { "skipped-listed" }, if project { "|project" } else { "" }),
+            format!(
+                "{args:?}, middle record with genotypes {:?} for s0,s1,s2: columns {:?} give {} {:?} ({}), columns {:?} give {} {:?} ({}){}",
+                row.iter().map(|g| ODD_GTS[*g]).collect::<Vec<_>>(),
+                first.0,
+                if first.1 { "success" } else { "failure" },
+                String::from_utf8_lossy(&first.2),
+                first.3,
+                b.0,
+                if b.1 { "success" } else { "failure" },
+                String::from_utf8_lossy(&b.2),
+                b.3,
+                if must_fail { "; a listed sample is not diploid, so every order must fail" } else { "" }
+            ),
+            J::obj([("kind", J::s("c09-odd-columns")), ("row", J::usizes(row)), ("labelled", J::Bool(labelled)), ("project", J::Bool(project))]),
+        )
+    })
+}
+
+/// Lists in which label 1 is spelled as the empty string (`sample=` / a trailing tab). The statement
+/// does not say whether an empty label is a label: accepted are a diagnosed error, the empty string as
+/// a population of its own, and the empty string as "no label"; `--samples` and `--samples-file` must
+/// agree, and nothing else is a correct spectrum.
+fn eval_cli_empty_label(list: &[Entry], scratch: &Scratch) -> Option<Viol> {
+    let nm = Naming { id: "empty-label", names: ["s0", "s1", "s2", "s3", "s4"], labels: ["", "", "B", "C"] };
+    let vcf = vcf_for(&[0, 1, 2]);
+    let spelled = list_str_n(list, &nm);
+    let a = run_sfs(&["create", "--samples", &spelled], Stdin::Bytes(&vcf), scratch);
+    let path = scratch.file(".samples", file_str_n(list, &nm).as_bytes());
+    let b = run_sfs(&["create", "--samples-file", path.to_str().unwrap()], Stdin::Bytes(&vcf), scratch);
+    let _ = std::fs::remove_file(path);
+    let as_unnamed: Vec<Entry> = list.iter().map(|(s, l)| (*s, if *l == 1 { 0 } else { *l })).collect();
+    let case = || J::obj([("kind", J::s("c09-empty-label")), ("samples", J::s(spelled.clone())), ("list", J::arr(list.iter().map(|(s, l)| J::usizes(&[*s, *l]))))]);
+    if a.code != b.code || a.stdout != b.stdout {
+        return Some(("C09|cli|samples-file-differs|empty-label".into(), format!("--samples '{spelled}' gives {} {:?}, the same content as a file gives {} {:?}", a.status_str(), a.stdout_str(), b.status_str(), b.stdout_str()), case()));
+    }
+    if !a.ok() {
+        return if a.diagnosed_error() && a.stdout.is_empty() { None } else { Some(("C09|cli|empty-label|undiagnosed".into(), format!("--samples '{spelled}': {} {}", a.status_str(), a.stderr_str().trim()), case())) };
+    }
+    match parse_out(&a) {
+        Ok(g) if g == reference(list) || g == reference(&as_unnamed) => None,
+        other => Some((
+            "C09|cli|empty-label|neither-reading".into(),
+            format!("--samples '{spelled}': {other:?}; with the empty label as its own population the spectrum is {:?} {:?}, as no label {:?} {:?}", reference(list).shape, reference(list).data, reference(&as_unnamed).shape, reference(&as_unnamed).data),
+            case(),
+        )),
+    }
+}
+
 fn vcf_for_n(columns: &[usize], nm: &Naming) -> Vec<u8> {
     let mut cs = CallSet::new(columns.len());
     cs.samples = columns.iter().map(|s| nm.names[*s].to_string()).collect();
@@ -635,6 +715,49 @@ pub fn run(tier: Tier) -> i32 {
             extra: vec![],
         });
     }
+    // listed columns with missing, multiallelic and non-diploid calls, in every column order
+    {
+        let mut oj: Vec<([usize; 3], bool, bool)> = Vec::new();
+        for a in 0..4usize {
+            for b in 0..4usize {
+                for c in 0..4usize {
+                    for labelled in [false, true] {
+                        for project in [false, true] {
+                            oj.push(([a, b, c], labelled, project));
+                        }
+                    }
+                }
+            }
+        }
+        let res = par_map(oj.len(), |i| eval_cli_odd_columns(&oj[i].0, oj[i].1, oj[i].2, &scratch));
+        for v in res.into_iter().flatten() {
+            rep.violation(v.0, v.1, v.2);
+        }
+        rep.part(Part {
+            name: "cli: column orders of records with skipped and non-diploid listed genotypes".into(),
+            evaluations: 6 * oj.len() as u64,
+            nontrivial: 6 * oj.len() as u64,
+            note: "every row of three listed samples over {called, missing, multiallelic, haploid} as the middle of three records x {unlabelled, two populations} x {no projection, projection} x all 6 orders of the sample columns: same success / failure and byte-identical stdout in every order; a haploid listed genotype fails in every order".into(),
+            exhaustive: true,
+            extra: vec![],
+        });
+    }
+    // the empty string as a label
+    {
+        let el: Vec<&Vec<Entry>> = lists3.iter().filter(|l| l.iter().any(|e| e.1 == 1)).collect();
+        let res = par_map(el.len(), |i| eval_cli_empty_label(el[i], &scratch));
+        for v in res.into_iter().flatten() {
+            rep.violation(v.0, v.1, v.2);
+        }
+        rep.part(Part {
+            name: "cli: the empty string as a label".into(),
+            evaluations: 2 * el.len() as u64,
+            nontrivial: 2 * el.len() as u64,
+            note: format!("{} lists of <=3 of 3 samples in which one label is spelled as the empty string (`s0=`, a trailing tab in the file): --samples and --samples-file agree; accepted are a diagnosed error, the empty label as a population of its own, or as no label - no other spectrum", el.len()),
+            exhaustive: true,
+            extra: vec![],
+        });
+    }
     // spellings of names and labels
     let mut nj: Vec<(usize, usize)> = Vec::new();
     for ni in 1..NAMINGS.len() {
@@ -726,6 +849,17 @@ pub fn run(tier: Tier) -> i32 {
 }
 
 pub fn replay(case: &J) -> Option<Vec<String>> {
+    if case.get("kind").and_then(|k| k.as_str()) == Some("c09-empty-label") {
+        let list: Vec<Entry> = case.get("list")?.as_arr()?.iter().filter_map(|e| e.as_usizes()).map(|e| (e[0], e[1])).collect();
+        let scratch = Scratch::new("c09r");
+        return Some(eval_cli_empty_label(&list, &scratch).into_iter().map(|(k, w, _)| format!("{k} :: {w}")).collect());
+    }
+    if case.get("kind").and_then(|k| k.as_str()) == Some("c09-odd-columns") {
+        let r = case.get("row")?.as_usizes()?;
+        let scratch = Scratch::new("c09r");
+        let b = |k: &str| matches!(case.get(k), Some(J::Bool(true)));
+        return Some(eval_cli_odd_columns(&[r[0], r[1], r[2]], b("labelled"), b("project"), &scratch).into_iter().map(|(k, w, _)| format!("{k} :: {w}")).collect());
+    }
     let kind = case.get("kind")?.as_str()?.to_string();
     if kind == "c09-err" {
         let scratch = Scratch::new("c09r");
